@@ -6,6 +6,8 @@ CONSTANTS
   Sorted <- MCSorted
   FilePool <- FileSettingsSmall
   NFiles = 2
+  CmtPool <- CmtPoolSmall
+  MaxMeta = 1
   HintNames = {"d", "."}
   MaxCells = 2
   MaxOps = 4
